@@ -151,6 +151,9 @@ def bi_len(e, st, args, kw, node):
         return st, VInt(z3.IntVal(len(v.items)))
     if isinstance(v, (VRange, VEnumerate, VZip)):
         return st, VInt(e.iterable(st, v).n)
+    if isinstance(v, VDict):
+        e.add_background(('dict', str(v.t)), z3.And(*v.axioms()))
+        return st, VInt(v.n)
     raise Unsupported(f"len of {type(v).__name__}")
 
 
@@ -797,6 +800,32 @@ bi_groupby = bi_itertools_groupby
 
 
 # ---------------------------------------------------------------------------------------------- list methods
+def bi_TextIO_close(e, st, args, kw, node):
+    e.assumptions.add('file.close() returns None and changes nothing the verified code reads')
+    return st, VNone()
+
+
+def call_dictmeth(e, st, d: VDict, name, args, node, kwargs=None):
+    from .symex2 import VDictKeys
+    e.add_background(('dict', str(d.t)), z3.And(*d.axioms()))
+    e.assumptions.add('dicts given as arguments are only read (has / get / insertion-ordered key and value tables, keys compared by value)')
+    if name == 'keys' and not args:
+        yield st, VDictKeys(d)
+    elif name == 'values' and not args:
+        yield st, st.new_list(d.values_list())
+    elif name == 'items' and not args:
+        yield st, VZip((st.new_list(d.keys_list()), st.new_list(d.values_list())))
+    elif name == 'get' and len(args) in (1, 2):
+        key = e.dict_key(st, d, args[0])
+        dflt = args[1] if len(args) == 2 else VNone()
+        got = d.get(key)
+        if isinstance(got, VList):
+            raise Unsupported("dict.get of a list value")
+        yield st, ite_val(d.has(key), got, dflt) if not isinstance(dflt, VNone) else VOpt(z3.Not(d.has(key)), got)
+    else:
+        raise Unsupported(f"dict method {name}")
+
+
 def call_listmeth(e, st, ref: VListRef, name, args, node, kwargs=None):
     l = st.lists[ref.lid]
     site = e.site(st, 'call')
